@@ -154,6 +154,12 @@ func leaderBody(writers int, syncData bool, preload int) func(s *vsched.Sched) {
 // ---- (b) follower ------------------------------------------------------------
 
 func followerBody(nAppends int, syncData bool) func(s *vsched.Sched) {
+	return followerBodyBreak(nAppends, syncData, false)
+}
+
+// breakStream: the leader's connection drops right after its last append was sent, so the
+// follower's stream is (being) detached when the new-term request arrives.
+func followerBodyBreak(nAppends int, syncData bool, breakStream bool) func(s *vsched.Sched) {
 	return func(s *vsched.Sched) {
 		s.Explore(false)
 		env := oxc.NewEnv(s)
@@ -192,6 +198,9 @@ func followerBody(nAppends int, syncData bool) func(s *vsched.Sched) {
 				if err := stream.Send(&proto.Append{Term: 1, Entry: le, CommitOffset: int64(i - 1)}); err != nil {
 					return
 				}
+			}
+			if breakStream {
+				net.Streams[0].Break()
 			}
 		})
 		var ntResp *proto.NewTermResponse
@@ -252,6 +261,7 @@ func scenarios(tier string) []sched.Scenario {
 	out := []sched.Scenario{
 		{Name: "follower-2appends-sync", Cfg: cfg, MaxDev: d, Body: followerBody(2, true)},
 		{Name: "follower-2appends-nosync", Cfg: cfg, MaxDev: d, Body: followerBody(2, false)},
+		{Name: "follower-2appends-stream-break", Cfg: cfg, MaxDev: d, Body: followerBodyBreak(2, true, true)},
 		{Name: "leader-1writer-sync", Cfg: cfg, MaxDev: d, Body: leaderBody(1, true, 1)},
 		{Name: "leader-2writers-sync", Cfg: cfg, MaxDev: 2, Body: leaderBody(2, true, 0)},
 	}
